@@ -11,6 +11,7 @@ pub mod dgram;
 pub mod dhcp_net;
 pub mod dns_net;
 pub mod enforce;
+pub mod hostprobe;
 pub mod lowpan;
 pub mod scen;
 pub mod tcp_peer;
@@ -177,11 +178,39 @@ pub fn checksum_caps(kind: u8) -> ChecksumCapabilities {
     c
 }
 
+/// A field whose mutable uses are noticed (C13: "no socket calls in between").
+pub struct Tracked<T> {
+    v: T,
+    pub dirty: bool,
+}
+
+impl<T> Tracked<T> {
+    pub fn new(v: T) -> Tracked<T> {
+        Tracked { v, dirty: false }
+    }
+}
+
+impl<T> std::ops::Deref for Tracked<T> {
+    type Target = T;
+    fn deref(&self) -> &T {
+        &self.v
+    }
+}
+
+impl<T> std::ops::DerefMut for Tracked<T> {
+    fn deref_mut(&mut self) -> &mut T {
+        self.dirty = true;
+        &mut self.v
+    }
+}
+
 /// One simulated host: interface + device + socket set.
 pub struct Host {
-    pub iface: Interface,
+    pub iface: Tracked<Interface>,
     pub dev: SimDevice,
-    pub sockets: SocketSet<'static>,
+    pub sockets: Tracked<SocketSet<'static>>,
+    /// C13 oracles riding along (see hostprobe.rs); None unless the driver runs inside `with_probes`
+    pub probe: Option<hostprobe::Probe>,
 }
 
 pub struct PollOut {
@@ -189,22 +218,20 @@ pub struct PollOut {
     pub rx_count: usize,
 }
 
+impl Drop for Host {
+    fn drop(&mut self) {
+        if let Some(p) = self.probe.take() {
+            hostprobe::retire(p);
+        }
+    }
+}
+
 impl Host {
     pub fn new(medium: Medium, mtu: usize, hw: HardwareAddress, seed: u64, addrs: &[IpCidr], now: Micros) -> Host {
-        let mut dev = SimDevice::new(medium, mtu);
+        let dev = SimDevice::new(medium, mtu);
         let mut cfg = Config::new(hw);
         cfg.random_seed = seed;
-        let mut iface = Interface::new(cfg, &mut dev, inst(now));
-        iface.update_ip_addrs(|a| {
-            for c in addrs {
-                let _ = a.push(*c);
-            }
-        });
-        Host {
-            iface,
-            dev,
-            sockets: SocketSet::new(Vec::new()),
-        }
+        Host::with_config(dev, cfg, addrs, now)
     }
 
     pub fn with_config(mut dev: SimDevice, cfg: Config, addrs: &[IpCidr], now: Micros) -> Host {
@@ -215,24 +242,118 @@ impl Host {
             }
         });
         Host {
-            iface,
+            iface: Tracked::new(iface),
             dev,
-            sockets: SocketSet::new(Vec::new()),
+            sockets: Tracked::new(SocketSet::new(Vec::new())),
+            probe: hostprobe::new_probe(),
         }
     }
 
-    /// Interface::poll at virtual time `now`; returns what was transmitted.
-    pub fn poll(&mut self, now: Micros) -> PollOut {
+    fn raw_poll(&mut self, now: Micros) -> PollOut {
         self.dev.begin_poll(now);
-        self.iface.poll(inst(now), &mut self.dev, &mut self.sockets);
+        self.iface.v.poll(inst(now), &mut self.dev, &mut self.sockets.v);
         PollOut {
             rx_count: self.dev.rx_in_poll,
             tx: self.dev.drain_tx(),
         }
     }
 
+    fn raw_poll_at(&mut self, now: Micros) -> Option<Micros> {
+        self.iface.v.poll_at(inst(now), &self.sockets.v).map(|i| i.total_micros())
+    }
+
+    fn socket_summary(&self) -> String {
+        use smoltcp::socket::Socket;
+        let mut v = Vec::new();
+        for (_, s) in self.sockets.v.iter() {
+            v.push(match s {
+                Socket::Tcp(t) => format!("tcp:{}", t.state()),
+                Socket::Udp(u) => format!("udp:q{}", u.send_queue()),
+                Socket::Icmp(_) => "icmp".into(),
+                Socket::Raw(_) => "raw".into(),
+                Socket::Dhcpv4(_) => "dhcpv4".into(),
+                Socket::Dns(_) => "dns".into(),
+            });
+        }
+        format!("[{}] addrs {:?} medium {:?}", v.join(", "), self.iface.v.ip_addrs(), self.dev.medium)
+    }
+
+    /// Interface::poll at virtual time `now`; returns what was transmitted.
+    pub fn poll(&mut self, now: Micros) -> PollOut {
+        if self.probe.is_none() {
+            return self.raw_poll(now);
+        }
+        let medium = self.dev.medium;
+        let clean = !self.iface.dirty && !self.sockets.dirty;
+        let (have, d, last) = {
+            let p = self.probe.as_ref().unwrap();
+            (p.have_deadline, p.deadline, p.last_now)
+        };
+        let mut judged_interval = clean && have && now >= last;
+        // ---- extra early poll at an instant before both the deadline and this poll
+        if judged_interval {
+            let upper = d.unwrap_or(Micros::MAX).min(now);
+            if upper > last && self.probe.as_mut().unwrap().want_extra() {
+                let t = self.probe.as_mut().unwrap().pick_instant(last, upper);
+                let held = std::mem::take(&mut self.dev.rx);
+                let out = self.raw_poll(t);
+                self.dev.rx = held;
+                let accepts = !self.dev.blocked && self.dev.tx_cap > 0;
+                let d2 = self.raw_poll_at(t);
+                let summary = self.socket_summary();
+                let p = self.probe.as_mut().unwrap();
+                p.judge_s(medium, "extra", t, &out.tx, &summary);
+                // the remembered deadline stays the one the driver (or the last regular poll) saw
+                // if the early poll was silent; a poll that did transmit starts a new interval
+                let silent = out.tx.is_empty();
+                let keep = p.deadline;
+                p.after_poll(medium, t, out.rx_count, &out.tx, accepts, d2, &summary, false);
+                if silent {
+                    // keep judging against the *earlier of the two* answers: both are promises
+                    p.deadline = match (keep, d2) {
+                        (Some(a), Some(b)) => Some(a.max(b)),
+                        _ => None,
+                    };
+                    p.mark_probed();
+                } else {
+                    judged_interval = false;
+                }
+                p.carry.extend(out.tx);
+            }
+        }
+        // ---- the regular poll
+        let mut out = self.raw_poll(now);
+        let accepts = !self.dev.blocked && self.dev.tx_cap > 0;
+        let d_after = self.raw_poll_at(now);
+        let summary = self.socket_summary();
+        let p = self.probe.as_mut().unwrap();
+        let dl = p.deadline;
+        let early = judged_interval && out.rx_count == 0 && dl.map_or(true, |x| now < x);
+        if early {
+            p.judge_s(medium, "regular", now, &out.tx, &summary);
+        }
+        let timer_poll = have && !early;
+        p.after_poll(medium, now, out.rx_count, &out.tx, accepts, d_after, &summary, timer_poll);
+        if !p.carry.is_empty() {
+            let mut all = std::mem::take(&mut p.carry);
+            all.append(&mut out.tx);
+            out.tx = all;
+        }
+        self.iface.dirty = false;
+        self.sockets.dirty = false;
+        out
+    }
+
     pub fn poll_at(&mut self, now: Micros) -> Option<Micros> {
-        self.iface.poll_at(inst(now), &self.sockets).map(|i| i.total_micros())
+        let d = self.raw_poll_at(now);
+        if let Some(p) = self.probe.as_mut() {
+            // the driver plans its sleep on this answer: everything it did to the sockets so far is
+            // covered by it
+            p.note_asked(now, d);
+            self.iface.dirty = false;
+            self.sockets.dirty = false;
+        }
+        d
     }
 }
 
